@@ -198,12 +198,13 @@ func (s *server) CreateTable(ctx context.Context, req *btapb.CreateTableRequest)
 	}
 	req.Table.Name = tbl
 	rows := s.storage.Create(req.Table)
+	// A copy for the response, taken before the table becomes reachable: from then on the
+	// stored definition is changed by ModifyColumnFamilies under the table's own lock.
+	def := proto.Clone(req.GetTable()).(*btapb.Table)
 	s.tables[tbl] = newTable(req.Table, rows)
 
 	s.mu.Unlock()
 
-	// (a copy: the stored definition is changed by ModifyColumnFamilies while this response is encoded)
-	def := proto.Clone(req.GetTable()).(*btapb.Table)
 	ct := &btapb.Table{
 		Name:           tbl,
 		ColumnFamilies: def.GetColumnFamilies(),
